@@ -492,6 +492,7 @@ type half struct { // data flowing towards one reader
 	consumed  int64 // bytes handed to the reader's Read calls
 	queue     []frag
 	marks     []*Mark
+	other     *half // the opposite direction of the same connection
 }
 
 // Mark records when the reader of a direction has consumed the stream up to an offset.
@@ -500,6 +501,17 @@ type Mark struct {
 	Off  int64
 	at   time.Duration
 	done bool
+	// readerWrote: how many bytes the consuming side had written in the opposite direction at
+	// the moment it consumed the mark (everything before that offset was sent in ignorance of
+	// the marked message).
+	readerWrote int64
+}
+
+// ReaderWrote: see Mark.readerWrote (valid once Consumed reports true).
+func (m *Mark) ReaderWrote() int64 {
+	m.h.mu.Lock()
+	defer m.h.mu.Unlock()
+	return m.readerWrote
 }
 
 // Consumed reports whether (and when) the reader has read past the mark.
@@ -521,6 +533,7 @@ func (p *Pair) MarkWritten(side int) *Mark {
 	m := &Mark{h: h, Off: h.total}
 	if h.consumed >= m.Off {
 		m.done, m.at = true, simrt.Now()
+		m.readerWrote = h.other.totalNoLock()
 	} else {
 		h.marks = append(h.marks, m)
 	}
@@ -540,6 +553,10 @@ func (p *Pair) Consumed(side int) int64 {
 	defer c.out.mu.Unlock()
 	return c.out.consumed
 }
+
+// totalNoLock reads the bytes-written counter of a direction without its lock (one goroutine
+// runs at a time in the simulation; taking the lock here would order the two halves' locks).
+func (h *half) totalNoLock() int64 { return h.total }
 
 func newHalf() *half {
 	return &half{readable: make(chan struct{}, 1), writable: make(chan struct{}, 1)}
@@ -567,6 +584,7 @@ type tcpConn struct {
 func newPair(n *Net, id int, a, b *net.TCPAddr, lat time.Duration, ha, hb *simrt.Host) *Pair {
 	p := &Pair{ID: id, n: n, Lat: lat, HostA: ha, HostB: hb, OpenedAt: simrt.Now()}
 	ab, ba := newHalf(), newHalf()
+	ab.other, ba.other = ba, ab
 	p.A = &tcpConn{pair: p, side: 0, in: ba, out: ab, laddr: a, raddr: b, closed: make(chan struct{}), rd: makeDeadline(), wd: makeDeadline(), host: ha}
 	p.B = &tcpConn{pair: p, side: 1, in: ab, out: ba, laddr: b, raddr: a, closed: make(chan struct{}), rd: makeDeadline(), wd: makeDeadline(), host: hb}
 	return p
@@ -739,6 +757,7 @@ func (c *tcpConn) Read(p []byte) (int, error) {
 				for _, m := range h.marks {
 					if h.consumed >= m.Off {
 						m.done, m.at = true, simrt.Now()
+						m.readerWrote = h.other.totalNoLock()
 					} else {
 						keep = append(keep, m)
 					}
